@@ -185,6 +185,54 @@ func TestC17(t *testing.T) {
 		if sids[0] == sids[2] || sids[3] == sids[0] || sids[3] == sids[5] || sids[5] == sids[6] {
 			r.Violate("C17/sid-collision", "different secrets give the same identifier", fields)
 		}
+		// one long-lived ConnData through a history of key changes: after every SetRemote the
+		// identifier is the one a fresh ConnData with that remote key derives
+		{
+			live := mk(cfg{k, 0, ea})
+			hist := []int{0, k + 1, k + 1, k + 2, k + 1, k + 3}
+			var hf, hl []string
+			var seen [][64]byte
+			for step, rem := range hist {
+				if rem != 0 {
+					if err := live.SetRemote(key(rem).PubKey()); err != nil {
+						r.Violate("C17/sid-error", err.Error(), hist)
+						break
+					}
+				}
+				got, err1 := live.SID()
+				if step%2 == 1 {
+					got, err1 = live.SID() // asked twice: the answer may not depend on having been asked
+				}
+				want, err2 := mk(cfg{k, rem, ea}).SID()
+				if err1 != nil || err2 != nil {
+					r.Violate("C17/sid-error", fmt.Sprint(err1, err2), hist)
+					break
+				}
+				if got != want {
+					r.Violate("C17/stale-sid-after-key-change", fmt.Sprintf("after the remote-key history %v (local key %d) SID() differs from the identifier a fresh ConnData derives for remote key %d",
+						hist[:step+1], k, rem), map[string]interface{}{"local": k, "history": hist[:step+1]})
+				}
+				remS := "-"
+				if rem != 0 {
+					remS = fmt.Sprint(rem)
+				}
+				hf = append(hf, fmt.Sprintf("%d,%s,%s", k, remS, hx(ea)))
+				found := -1
+				for i, u := range seen {
+					if u == got {
+						found = i
+					}
+				}
+				if found < 0 {
+					seen = append(seen, got)
+					found = len(seen) - 1
+				}
+				hl = append(hl, fmt.Sprint(found))
+			}
+			if len(hl) == len(hist) {
+				r.Emit("sid.pattern "+strings.Join(hf, " "), strings.Join(hl, " "))
+			}
+		}
 		for _, s := range sids[:2] {
 			c2s, s2c := mailbox.GetSID(s, false), mailbox.GetSID(s, true)
 			r.Emit(fmt.Sprintf("sid.getsid %s 0", hx(s[:])), hx(c2s[:]))
